@@ -35,7 +35,9 @@ def _unwrap(e):
 
 
 class ElemExec:
-    def __init__(self, tu, where="", consts: dict | None = None, max_inline=3):
+    def __init__(self, tu, where="", consts: dict | None = None, max_inline=3, null_pointers=(), nonnull_pointers=()):
+        self.null_pointers = set(null_pointers)  # pointer parameters assumed NULL: `if (p)` takes the else arm
+        self.nonnull_pointers = set(nonnull_pointers)
         self.tu = tu
         self.where = where or getattr(tu, "rel", "")
         self.consts = dict(consts or {})
@@ -72,6 +74,7 @@ class State:
         self.loopvars: list = []  # stack of (Symbol, lo, hi) for generic loops
         self.ret = None
         self.local_arrays: set = set()
+        self.level: dict = {}  # scalar name -> generic-loop depth at its last plain assignment
 
     # -- expressions --------------------------------------------------------
     def base_and_idx(self, e):
@@ -186,14 +189,19 @@ class State:
             nm = lhs["referencedDecl"]["name"]
             if op == "=":
                 self.scalars[nm] = val
+                self.level[nm] = len(self.loopvars)
             else:
                 cur = self.scalars.get(nm)
                 if cur is None:
                     raise AnalysisError(f"{self.ex.where}::{self.fname}: '{nm} {op}' before initialisation")
-                # scalar accumulation inside a generic loop is a reduction over that loop
-                if op in ("+=", "-=") and self.loopvars and self.loopvars[-1][0] not in cur.free_symbols and any(lv in val.free_symbols for lv, _, _ in self.loopvars):
-                    lv, lo, hi = [x for x in self.loopvars if x[0] in val.free_symbols][-1]
-                    term = sp.Sum(val, (lv, lo, hi - 1))
+                # accumulation into a scalar that was last assigned outside some enclosing generic loops is a
+                # reduction over those loops (the ones that the accumulated term depends on)
+                lvl = self.level.get(nm, 0)
+                red = [x for p_, x in enumerate(self.loopvars) if p_ >= lvl and x[0] in val.free_symbols]
+                if op in ("+=", "-=") and red:
+                    term = val
+                    for lv, lo, hi in reversed(red):
+                        term = sp.Sum(term, (lv, lo, hi - 1))
                     self.scalars[nm] = cur + term if op == "+=" else cur - term
                 else:
                     self.scalars[nm] = {"+=": cur + val, "-=": cur - val, "*=": cur * val, "/=": cur / val}[op]
@@ -202,11 +210,14 @@ class State:
             base, idx = self.base_and_idx(lhs)
             lvs = tuple(lv for lv, _, _ in self.loopvars)
             idx_syms = set().union(*[x.free_symbols for x in idx]) if idx else set()
+            ckey = (base, tuple(str(x) for x in idx))
             if op == "=":
                 new = val
+                self.level[ckey] = len(self.loopvars)
             else:
                 cur = self.read_cell(base, idx)
-                red = [x for x in self.loopvars if x[0] not in idx_syms and x[0] in val.free_symbols]
+                lvl = self.level.get(ckey, 0)
+                red = [x for p_, x in enumerate(self.loopvars) if p_ >= lvl and x[0] not in idx_syms and x[0] in val.free_symbols]
                 if op in ("+=", "-=") and red:
                     term = val
                     for lv, lo, hi in reversed(red):
@@ -257,6 +268,20 @@ class State:
             if k == "ForStmt":
                 self.loop(s)
                 continue
+            if k == "IfStmt":
+                c = _unwrap(ks[0])
+                neg = False
+                while c.get("kind") == "UnaryOperator" and c.get("opcode") == "!":
+                    neg = not neg
+                    c = _unwrap(cast.kids(c)[0])
+                nm = c.get("referencedDecl", {}).get("name") if c.get("kind") == "DeclRefExpr" else None
+                if nm in self.ex.null_pointers or nm in self.ex.nonnull_pointers:
+                    truth = (nm in self.ex.nonnull_pointers) != neg
+                    arm = ks[1] if truth else (ks[2] if len(ks) > 2 else None)
+                    if arm is not None and self.block([arm]):
+                        return True
+                    continue
+                raise AnalysisError(f"{self.ex.where}::{self.fname}: data-dependent branch '{cast.text(ks[0])[:50]}' is outside the modelled fragment")
             if k == "CallExpr":
                 nm = cast.callee_name(s)
                 if nm in ("free", "printf", "fprintf"):
